@@ -68,6 +68,10 @@ def literal(rng, canon, code, sep, aliases):
     return text, 1
 
 
+BASE_RATED = frozenset(k for k in lex.rates() if k in lex.currencies())
+COV = []          # (finite sub-space, item) pairs of the case being generated
+
+
 class Rates:
     def __init__(self):
         self.r = {k: Fraction(v) for k, v in lex.rates().items() if k in lex.currencies()}
@@ -87,17 +91,21 @@ def gen_case(rng, rates, sep, aliases, targets):
     X = Fraction(xs) * mult
     r = rng.random()
     if r < 0.12:
+        COV.append(('currency as literal', a))
         return xt, 'literal', ('money', a, X, abs(X))
     if r < 0.6:
         conn = rng.choice(['to ', 'as ', 'in ', 'into ', '', 'TO ', 'As '])
         tw = [w for w, c in targets.items() if c == b and w != b]
         tgt = rng.choice(tw) if (tw and rng.random() < 0.3) else rng.choice([b, b.upper(), b.capitalize()])
         want = rates.convert(X, a, b)
+        COV.append(('ordered currency pair converted', '%s>%s' % (a, b)))
+        COV.append(('conversion connective', conn.strip().lower() or '(none)'))
         return '%s %s%s' % (xt, conn, tgt), ('convert-same' if a == b else 'convert'), ('money', b, want, abs(want))
     ys = rng.choice(AMOUNTS)
     yt, ym = literal(rng, ys, b, sep, aliases)
     Y = Fraction(ys) * ym
     Yc = rates.convert(Y, b, a)
+    COV.append(('ordered currency pair in + - /', '%s>%s' % (a, b)))
     if r < 0.7:
         return '%s + %s' % (xt, yt), 'add', ('money', a, X + Yc, abs(X) + abs(Yc))
     if r < 0.8:
@@ -196,9 +204,19 @@ def run_shard(ctx):
                         ops.append({'op': 'execute', 'lang': 'en', 'text': text})
                         meta[len(ops) - 1] = ('eval', text, 'after-update', ('money', b, rates.convert(Fraction(xs), a, b), abs(rates.convert(Fraction(xs), a, b))), rates.version)
             else:
+                del COV[:]
                 text, cls, exp = gen_case(rng, rates, sep, aliases, targets)
                 ops.append({'op': 'execute', 'lang': 'en', 'text': text})
                 meta[len(ops) - 1] = ('eval', text, cls, exp, rates.version)
+                for space, item in COV:
+                    if 'pair' in space:
+                        if all(c in BASE_RATED for c in item.split('>')):
+                            res.cover(space + ' (initially rated)', item, len(BASE_RATED) ** 2)
+                    elif 'literal' in space:
+                        if item in BASE_RATED:
+                            res.cover(space + ' (initially rated)', item, len(BASE_RATED))
+                    else:
+                        res.cover(space, item)
         rs = drv.run(ops)
         for idx, m in meta.items():
             r = rs[idx]
